@@ -1,3 +1,3 @@
-// C02 part 6: element types selected by C02_PART (see C02_linalg.cpp)
-#define C02_PART 6
+// C02 part 8: element types selected by C02_PART (see C02_linalg.cpp, which is the whole harness)
+#define C02_PART 8
 #include "C02_linalg.cpp"
